@@ -172,9 +172,13 @@ def check_file(npass: int, nch: int, nb: int, f0: int, f1: int, inc: bool, near:
     for p in range(npass):
         passes.append((nch, inc, [data_block(k, nch, frames[k], syms[k]) for k in range(nb)]))
     f = SymFile(build_file(passes, near))
+    # the file object is used for several calls: the type test first, then two reads (each must start from the beginning of the file)
+    if not ReadBIT.is_bit_file(f):
+        return False
+    first = ReadBIT.create_bit_frame_array_from_file(f)
     got = ReadBIT.create_bit_frame_array_from_file(f)
     mark.hit()
-    if len(got) != npass:
+    if len(got) != npass or len(first) != npass:
         return False
     for p in range(npass):
         if got[p].channel_names != [n.decode('ascii') for n in NAMES[:nch]]:
